@@ -382,6 +382,7 @@ func templates() []string {
 			}
 		}
 	}
+	out = append(out, lineTemplates()...)
 	return out
 }
 
@@ -550,4 +551,78 @@ func init() {
 			out.WriteByte('\n')
 		}
 	}
+}
+
+// (d) one slider against a king along every line of the board: for every ordered pair of squares on a common rank, file or
+// diagonal (distance >= 2, everything between them empty) a queen, and a rook or bishop where the line suits it, on the first
+// and the enemy king on the second, that king's side to move: it must see the check (and may not step along the line)
+func lineTemplates() []string {
+	var out []string
+	for from := 0; from < 64; from++ {
+		for to := 0; to < 64; to++ {
+			ff, fr, tf, tr := from&7, from>>3, to&7, to>>3
+			df, dr := tf-ff, tr-fr
+			adf, adr := df, dr
+			if adf < 0 {
+				adf = -adf
+			}
+			if adr < 0 {
+				adr = -adr
+			}
+			straight := (df == 0) != (dr == 0)
+			diagonal := adf == adr && adf != 0
+			if !(straight || diagonal) || (adf < 2 && adr < 2) {
+				continue
+			}
+			for _, white := range []bool{true, false} {
+				pcs := []byte{'Q'}
+				if (from+to)%3 == 0 {
+					if straight {
+						pcs = append(pcs, 'R')
+					} else {
+						pcs = append(pcs, 'B')
+					}
+				}
+				for _, pc := range pcs {
+					cells := map[int]byte{}
+					att, king, oking, side := pc, byte('k'), byte('K'), "b"
+					if !white {
+						att, king, oking, side = pc+32, 'K', 'k', "w"
+					}
+					cells[sq(ff, fr)] = att
+					cells[sq(tf, tr)] = king
+					// the attacker's own king: far from the other king, off the line
+					placed := false
+					for _, cand := range []int{sq(0, 0), sq(7, 7), sq(0, 7), sq(7, 0), sq(3, 0), sq(4, 7), sq(0, 3), sq(7, 4)} {
+						cf, cr := cand&15, cand>>4
+						if _, used := cells[cand]; used {
+							continue
+						}
+						if iabs(cf-tf) <= 1 && iabs(cr-tr) <= 1 {
+							continue
+						}
+						// not between the two
+						if between(sq(ff, fr), sq(tf, tr), cand) {
+							continue
+						}
+						cells[cand] = oking
+						placed = true
+						break
+					}
+					if !placed {
+						continue
+					}
+					out = append(out, fenFromMap(cells, side, "-", "-", 7))
+				}
+			}
+		}
+	}
+	return out
+}
+
+func iabs(v int) int {
+	if v < 0 {
+		return -v
+	}
+	return v
 }
